@@ -657,6 +657,22 @@ func WellformedType(ctx map[ast.Variable]ast.BaseTerm, expr ast.BaseTerm) error 
 					return fmt.Errorf("in a struct type expression %v : %w", expr, err)
 				}
 			}
+			optionalArgs, err := StructTypeOptionaArgs(expr)
+			if err != nil {
+				return err
+			}
+			for _, optional := range optionalArgs {
+				opt, ok := optional.(ast.ApplyFn)
+				if !ok || len(opt.Args) != 2 {
+					return fmt.Errorf("in a struct type expression, an optional field needs a name and a type, got %v in %v ", optional, expr)
+				}
+				if c, ok := opt.Args[0].(ast.Constant); !ok || c.Type != ast.NameType {
+					return fmt.Errorf("in a struct type expression, the label of an optional field must be a name constant, got %v in %v ", opt.Args[0], expr)
+				}
+				if err := WellformedType(ctx, opt.Args[1]); err != nil {
+					return fmt.Errorf("in a struct type expression %v : %w", expr, err)
+				}
+			}
 			return nil
 		}
 		if fn == TaggedUnionType {
